@@ -224,3 +224,20 @@ Example C18_nonvacuous_registry :
   reg_lookup [ex_T2; ex_T1] (inl "map"%string) (inr "CAM_FRONT"%string) = LKeyError /\
   reg_lookup [ex_T2; ex_T1] (inl "zzz"%string) (inl "zzz"%string) = LValueError.
 Proof. repeat split; vm_compute; reflexivity. Qed.
+
+(* ---- the folds evaluated by the correspondence -------------------------------------------- *)
+(* chain_from_n / apply_chain_pose_n reduce every intermediate fraction to lowest terms; they are
+   the functions run against the implementation, and they compute the same values as the plain
+   folds the theorems above speak about *)
+Theorem C18_normalised_folds_equivalent : forall (acc : rigid) (l : list rigid) (p : vec3) (r : quat),
+  match chain_from_n acc l, chain_from acc l with
+  | DotOk A, DotOk B => qeq (rq A) (rq B) /\ veq (rt A) (rt B) /\ rsrc A = rsrc B /\ rdst A = rdst B
+  | DotValueError, DotValueError => True
+  | _, _ => False
+  end /\
+  veq (fst (apply_chain_pose_n l (p, r))) (fst (apply_chain_pose l (p, r))) /\
+  qeq (snd (apply_chain_pose_n l (p, r))) (snd (apply_chain_pose l (p, r))).
+Proof.
+  intros acc l p r. split; [exact (chain_from_n_correct acc l)|exact (apply_chain_pose_n_correct l p r)].
+Qed.
+Print Assumptions C18_normalised_folds_equivalent.
